@@ -69,6 +69,12 @@ Proof.
   - exact (mps_number_spec r pstart ref_ts k Hk).
   - exact (mps_number_beyond r pstart ref_ts k).
 Qed.
+
+(* ... and a number below startNumber is refused: the segments before the Period's offset belong to no Period *)
+Theorem C12_numbers_below_start :
+  forall r pstart ref_ts N, N < r_start_number r -> mps_number r pstart ref_ts N = None.
+Proof. exact mps_number_before. Qed.
+Print Assumptions C12_numbers_below_start.
 Print Assumptions C12_numbers.
 
 (* ... zero at the Period start and gapless from one number to the next *)
